@@ -816,6 +816,9 @@ func (tx *Transaction) anyWitnessInput() bool {
 		if (input.Witness != nil && len(input.Witness) > 0) || (input.PeginWitness != nil && len(input.PeginWitness) > 0) {
 			return true
 		}
+		if len(input.IssuanceRangeProof) > 0 || len(input.InflationRangeProof) > 0 {
+			return true
+		}
 	}
 	return false
 }
@@ -823,6 +826,9 @@ func (tx *Transaction) anyWitnessInput() bool {
 func (tx *Transaction) anyConfidentialOutput() bool {
 	for _, output := range tx.Outputs {
 		if output.RangeProof != nil && len(output.RangeProof) > 0 {
+			return true
+		}
+		if len(output.SurjectionProof) > 0 {
 			return true
 		}
 	}
